@@ -1,5 +1,6 @@
 \* intended switches, thorough family: TLC must pass; PROG lines feed the replay
 CONSTANTS SympyParenthesises = TRUE SafeNames = TRUE ClassifiesDiscrete = TRUE PrintsValueExpressions = TRUE
+          OneListPerVariable = TRUE
           Family = "thorough"
 INIT Init
 NEXT Next
